@@ -33,7 +33,8 @@ def variance(key_mapper=lambda i: i, reduce=False):
         else:
             mean = _moment(acc, 0, 1)
             v = _moment(acc, mean, 2)
-            acc.clear()
+            if reduce is True:
+                acc.clear()
             return v
 
     return rx.pipe(
